@@ -5,7 +5,6 @@ circus.stream.file_stream.FileStream on real files in a scratch directory, judge
 by the reference model vt/refmodels/logtail.py (a log is one string).
 """
 import datetime
-import hashlib
 import os
 import shutil
 import tempfile
@@ -50,6 +49,9 @@ ASSUMPTIONS = [
     'files left by an "earlier instance" are produced by really running an earlier FileStream with the same '
     'settings (backup_count+1 writes of the largest small size, then close)',
     'files are observed after each call returns, not in the middle of a call',
+    'below_max is judged only while every record so far, as written, was shorter than max_bytes: not after the '
+    'oversize write of family C, and not after a two-line payload (newline mode "mid", 3+ bytes) with '
+    'time_format on, whose two prefixed lines exceed max_bytes in these bounds',
     'prefix sharing relies on FileStream being deterministic; every 61st case the state after the silently '
     're-executed prefix is read back and must equal the state recorded when that prefix was judged',
     'the retention part of contiguous_tail (data may leave only by falling off .<backup_count> when all slots '
@@ -527,6 +529,3 @@ def replay_case(case):
             out.append(t)
     return out
 
-
-def _digest(obj):
-    return hashlib.sha1(repr(obj).encode()).hexdigest()[:12]
